@@ -182,7 +182,7 @@ def run_tlc(
         if "Temporal properties were violated" in s:
             r.violated.append("temporal")
     if coverage:
-        for m3 in re.finditer(r"<(\w+) line \d+, col \d+ to line \d+, col \d+ of module (\w+)>: (\d+):(\d+)", out):
+        for m3 in re.finditer(r"<(\w+) line \d+, col \d+ to line \d+, col \d+ of module (\w+)(?: \([\d ]+\))?>: (\d+):(\d+)", out):
             r.coverage[m3.group(1)] = r.coverage.get(m3.group(1), 0) + int(m3.group(4))
     if check_rc and rc not in (0,) and not r.violated:
         tail = "\n".join(out.splitlines()[-40:])
